@@ -5,6 +5,7 @@ package hx
 import (
 	"bufio"
 	"bytes"
+	"context"
 	"crypto/sha256"
 	"encoding/hex"
 	"encoding/json"
@@ -567,3 +568,42 @@ func (t *Tracer) MergeInto() {
 }
 
 var mergeMu sync.Mutex
+
+// ChildResult is the outcome of one scenario child of RunChildren.
+type ChildResult struct {
+	Name string
+	Out  string
+	Err  error
+}
+
+// RunChildren runs `vdrive -mode <mode> <driver>` once per name, all of them at the same time (scenarios that
+// consist mostly of waiting: pauses beyond common time-outs).  Each child gets VERIF_CHILD=<name> and traces
+// into its own file - hook events of the code under test included - which is appended to the main trace when
+// all children are done, so every child's segments stay contiguous.
+func RunChildren(driver, mode string, names []string, env []string, timeout time.Duration) []ChildResult {
+	out := make([]ChildResult, len(names))
+	trs := make([]*Tracer, len(names))
+	var wg sync.WaitGroup
+	for i, name := range names {
+		trs[i] = NewTracer(fmt.Sprintf("child-%s-%s-%d", driver, mode, i))
+		wg.Add(1)
+		go func(i int, name string) {
+			defer wg.Done()
+			ctx, cancel := context.WithTimeout(context.Background(), timeout)
+			defer cancel()
+			cmd := exec.CommandContext(ctx, Bin("vdrive"), "-mode", mode, "-out", os.DevNull, driver)
+			cmd.Env = append(append(os.Environ(), env...), "VERIF_CHILD="+name)
+			cmd.Env = append(cmd.Env, trs[i].Env()...)
+			b, err := cmd.CombinedOutput()
+			out[i] = ChildResult{Name: name, Out: string(b), Err: err}
+		}(i, name)
+	}
+	wg.Wait()
+	for _, t := range trs {
+		t.MergeInto()
+	}
+	return out
+}
+
+// Child is the scenario name a child of RunChildren was started for.
+func Child() string { return os.Getenv("VERIF_CHILD") }
